@@ -12,7 +12,7 @@ ERROR awkward_ByteMaskedArray_getitem_carry(
   const T* fromcarry,
   int64_t lencarry) {
   for (int64_t i = 0;  i < lencarry;  i++) {
-    if (fromcarry[i] >= lenmask) {
+    if (fromcarry[i] < 0  ||  fromcarry[i] >= lenmask) {
       return failure("index out of range", i, fromcarry[i], FILENAME(__LINE__));
     }
     tomask[i] = frommask[fromcarry[i]];
